@@ -1,0 +1,11 @@
+//go:build verif
+
+package oj
+
+import "sync"
+
+// VerifPools exposes the package pools to the /verif history monitors so that
+// pool reuse is observable and steerable. Compiled only with the verif tag.
+func VerifPools() (parser, writer, marshal *sync.Pool) {
+	return &parserPool, &writerPool, &marshalPool
+}
